@@ -387,7 +387,7 @@ def evaluate(pair: dict[str, Any], tag: str) -> dict[str, Any]:
         for warm, cold, direction in ((warmB, coldB, "A->B"), (warmA, coldA, "B->A")):
             if runner.same_observable(warm, cold):
                 continue
-            if runner.differs_only_in_only_once(warm, cold) or runner.partial_output_before_blocker(warm, cold):
+            if runner.soft_difference(warm, cold) is not None:
                 continue
             out["violation"] = {"kind": "stale_after_option_change", "direction": direction, "diff": runner.first_difference(warm, cold), "rechecked": warm.get("rechecked")}
             break
